@@ -66,7 +66,7 @@ package notify
 // never as a success: a flush reported as successful lets the group forget the resolved alerts it holds.
 // Assumed (context package): Err is non-nil once Done has been received from.
 //@ func (*ClusterWaitStage).Exec
-//@   props C05
+//@   props C05 C04 C20
 //@   requires ws != nil && ctx != nil && ws.wait != nil
 //@   after call Context).Err assume ret("select") == 1 ==> res0 != nil
 //@   ensures [waited-passes-the-batch-on] result2 == nil ==> ret("select") == 0 && result1 == alerts && result0 == ctx
